@@ -257,7 +257,65 @@ func dumpBridge(c *Chain) string {
 			sent = append(sent, fmt.Sprintf("%s:%d:%s", op, ve.ValsetSignature.Timestamp, hex.EncodeToString(ve.ValsetSignature.Signature)))
 		}
 	}
-	return fmt.Sprintf("evm=%s sigs=%s prevs=%s sent=%s", strings.Join(evm, ","), strings.Join(sigs, ","), strings.Join(prevs, ","), strings.Join(sent, ","))
+	// oracle attestations: stored slots per snapshot, the validator set of the checkpoint each snapshot was taken under,
+	// and what every validator sent at this height
+	cpTs := map[string]uint64{}
+	if it, err := c.App.BridgeKeeper.ValidatorCheckpointParamsMap.Iterate(ctx, nil); err == nil {
+		for ; it.Valid(); it.Next() {
+			kv, _ := it.KeyValue()
+			cpTs[string(kv.Value.Checkpoint)] = kv.Key
+		}
+		it.Close()
+	}
+	var atts, aprev, asent []string
+	if it, err := c.App.BridgeKeeper.SnapshotToAttestationsMap.Iterate(ctx, nil); err == nil {
+		for ; it.Valid(); it.Next() {
+			kv, _ := it.KeyValue()
+			sn := hex.EncodeToString(kv.Key)
+			for i, a := range kv.Value.Attestations {
+				if len(a) > 0 {
+					atts = append(atts, fmt.Sprintf("%s:%d=%s", sn, i, hex.EncodeToString(a)))
+				}
+			}
+			if d, err := c.App.BridgeKeeper.AttestSnapshotDataMap.Get(ctx, kv.Key); err == nil {
+				if ts, ok := cpTs[string(d.ValidatorCheckpoint)]; ok {
+					if vs, err := c.App.BridgeKeeper.BridgeValsetByTimestampMap.Get(ctx, ts); err == nil {
+						var as []string
+						for _, v := range vs.BridgeValidatorSet {
+							as = append(as, hex.EncodeToString(v.EthereumAddress))
+						}
+						aprev = append(aprev, fmt.Sprintf("%s:%d:%s", sn, len(kv.Value.Attestations), strings.Join(as, "/")))
+					}
+				}
+			}
+		}
+		it.Close()
+	}
+	for _, v := range c.lastExt {
+		var ve app.BridgeVoteExtension
+		if len(v.VoteExtension) == 0 || json.Unmarshal(v.VoteExtension, &ve) != nil {
+			continue
+		}
+		op := ""
+		for _, val := range c.Vals {
+			if string(val.ConsAddr) == string(v.Validator.Address) {
+				op = val.ValAddr.String()
+			}
+		}
+		for _, a := range ve.OracleAttestations {
+			asent = append(asent, fmt.Sprintf("%s:%s:%s", op, hex.EncodeToString(a.Snapshot), hex.EncodeToString(a.Attestation)))
+		}
+	}
+	savedS := ""
+	if bv, err := c.App.BridgeKeeper.BridgeValset.Get(ctx); err == nil {
+		var as []string
+		for _, v := range bv.BridgeValidatorSet {
+			as = append(as, fmt.Sprintf("%s@%d", hex.EncodeToString(v.EthereumAddress)[:10], v.Power))
+		}
+		savedS = strings.Join(as, "/")
+	}
+	return fmt.Sprintf("saved=%s evm=%s sigs=%s prevs=%s sent=%s atts=%s aprev=%s asent=%s", savedS, strings.Join(evm, ","), strings.Join(sigs, ","), strings.Join(prevs, ","), strings.Join(sent, ","),
+		strings.Join(atts, ","), strings.Join(aprev, ","), strings.Join(asent, ","))
 }
 
 func runProposalHist(t *testing.T, in []string) string {
@@ -363,6 +421,11 @@ func genProposalHist(r *Rng, i int, tier string) []string {
 		}
 		if r.Chance(1, 8) {
 			add("reqatt a0 q%d i0", r.Intn(3))
+		}
+		if r.Chance(1, 8) { // a burst: several snapshots at one height, so that one vote carries several attestations
+			for j := 2 + r.Intn(3); j > 0; j-- {
+				add("reqatt a%d q%d i0", r.Intn(2), r.Intn(3))
+			}
 		}
 		if r.Chance(1, 6) { // a new checkpoint (valset signatures): power shift of >= 5 % over two tracking periods, or staleness
 			if r.Chance(1, 2) {
